@@ -126,16 +126,22 @@ pub fn gen_session(rng: &mut Rng, o: &SessionOpts) -> Scenario {
             let g = workload::gen_game(rng, 24);
             (g.start, g.moves)
         };
+        let first_game_without_position = n_go == 0 && sc.steps.iter().all(|s| !matches!(s, Step::Line { text, .. } if text.starts_with("position"))) && rng.chance(1, 12);
+        let (start, moves) = if first_game_without_position { (Pos::start(), vec![]) } else { (start, moves) };
         let mut p = start.clone();
         for m in &moves {
             p = p.apply(*m);
         }
-        let pl = sa::position_line(&start, &moves, rng);
-        sc.line(&pl);
+        if !first_game_without_position {
+            let pl = sa::position_line(&start, &moves, rng);
+            sc.line(&pl);
+        }
         let gos = 1 + rng.below(if o.timed { 3 } else { 4 });
         let mut white = p.white_to_move;
         for _ in 0..gos {
-            let text = sa::gen_go(rng, o.timed, white);
+            // longer plans where the box is slow enough that a slice holds few nodes
+            let max_plan = if sc.c_node_ns >= 100_000 { 400 } else if sc.c_node_ns >= 25_000 { 150 } else { 50 };
+            let text = sa::gen_go_max(rng, o.timed, white, max_plan);
             if pipelined {
                 sc.line_nowait(&text);
             } else {
@@ -185,7 +191,12 @@ pub const FIRST_MOVE_NODE_BUDGET: u64 = 200;
 
 /// Evaluate one recorded session against the session model.
 pub fn judge_session(sc: &Scenario, res: &SimResult, tr: &Trace, j: Judge, acc: &mut Acc, run: u64) {
-    let scen = || sc.to_json();
+    let scen = || {
+        let mut j = sc.to_json();
+        // replaying the scenario must reproduce not only the verdict but the whole execution
+        j["log_hash"] = json!(format!("{:016x}", res.log_hash()));
+        j
+    };
     let mut v = |prop: &str, sig: String, detail: String, acc: &mut Acc| {
         acc.violate(Violation { prop: prop.to_string(), sig, detail, scenario: scen(), run });
     };
@@ -528,7 +539,9 @@ pub fn minimise(v: &Violation, j: Judge) -> Violation {
         }
     }
     out.run = v.run;
+    let (_, h) = replay(&best.to_json(), j);
     out.scenario = best.to_json();
+    out.scenario["log_hash"] = json!(format!("{:016x}", h));
     out
 }
 
